@@ -289,7 +289,10 @@ def str_method(I, s, name):
 
     def native(I_, a, k):
         if any(isinstance(x, Sym) for x in a) or any(isinstance(x, Sym) for x in k.values()):
-            return None
+            return NotImplemented
+        for x in a:
+            if isinstance(x, _i.PyList) and any(not isinstance(y, (str, bytes, int)) for y in x.items):
+                return NotImplemented
         aa = [x.items if isinstance(x, _i.PyList) else x for x in a]
         try:
             r = getattr(s, name)(*aa, **k)
@@ -306,9 +309,7 @@ def str_method(I, s, name):
     def meth(I_, a, k):
         if not sym:
             r = native(I_, a, k)
-            if r is not None or name in ():
-                return r
-            if not any(isinstance(x, Sym) for x in a):
+            if r is not NotImplemented:
                 return r
         t = _t(s)
         byt = is_bytes(s)
@@ -330,6 +331,8 @@ def str_method(I, s, name):
             if enc in ("utf-8", "utf8"):
                 f = I_.ufun("utf8", z3.StringSort(), z3.StringSort())
                 r = SStr(f(t), is_bytes=True)
+                if hasattr(s, "view"):  # frame strings keep their abstract view
+                    r = type(s)(f(t), True, s.view)
                 return r
             if enc == "latin-1":
                 return SStr(t, is_bytes=True)
@@ -346,6 +349,14 @@ def str_method(I, s, name):
             items = a[0].items if isinstance(a[0], _i.PyList) else list(a[0])
             parts = []
             for i, x in enumerate(items):
+                if type(x).__name__ == "ListTail":
+                    # unknown further items (append-only loop rule): the tail text carries its separators
+                    if x.sep != s:
+                        raise Outside("join with a different separator than the loop rule assumed")
+                    if i == 0:
+                        raise Outside("join of a list with unknown first item")
+                    parts.append(x.s)
+                    continue
                 if i:
                     parts.append(s)
                 if not is_strlike(x):
@@ -661,6 +672,7 @@ def call_extern(I, fn, args, kwargs):
         if I._last_time is not None:
             I.ctx.assume(SBool(t.t >= I._last_time.t))
         I._last_time = t
+        I.ctx.ghost.setdefault("times", []).append(t)
         return t
     if p == "asyncio.sleep":
         return None
